@@ -97,6 +97,11 @@ func isFloat(t types.Type) bool {
 	return ok && (b.Kind() == types.Float64 || b.Kind() == types.UntypedFloat)
 }
 
+func isFloat32(t types.Type) bool {
+	b, ok := t.Underlying().(*types.Basic)
+	return ok && b.Kind() == types.Float32
+}
+
 func (e *Engine) zero(t types.Type) Val {
 	switch u := t.Underlying().(type) {
 	case *types.Basic:
@@ -814,6 +819,16 @@ func (e *Engine) convert(st *State, v Val, from, to types.Type) Val {
 				abort("cut", "string(rune) of symbolic non-ASCII rune")
 			}
 			return constStr(string(rune(sext64(x.c, x.s.W))))
+		}
+		if isFloat32(to) && x.s.K == 'f' {
+			// float32 values are kept as the float64 of the same value
+			if isFloat32(from) {
+				return x
+			}
+			if x.IsConst() {
+				return ConstF64(float64(float32(math.Float64frombits(x.c))))
+			}
+			abort("cut", "float64->float32 conversion of a symbolic value is not modelled")
 		}
 		if isFloat(to) {
 			if x.s.K == 'f' {
